@@ -51,6 +51,7 @@ type Check struct {
 	// PanicFilter restricts which panics count (nil = all) when PanicViolates.
 	PanicFilter func(f vm.Finding) bool
 	Validate    int // number of path models per case to validate VM vs native (0 = default)
+	Race        bool // run native replays under the race detector
 	Timeout     map[string]time.Duration
 }
 
@@ -250,13 +251,22 @@ func runNative(ld *vm.Loaded, m *vm.VM, chk *Check, workDir string, byPkg map[st
 		if dir == "" {
 			target = "."
 		}
-		cmd := exec.Command("go", "test", "-vet=off", "-count=1", "-timeout", "20m", "-overlay", ovPath, "-run", "^TestZZVerifReplay$", "-v", target)
+		args := []string{"test", "-vet=off", "-count=1", "-timeout", "20m", "-overlay", ovPath, "-run", "^TestZZVerifReplay$", "-v"}
+		if chk.Race {
+			args = append(args, "-race")
+		}
+		args = append(args, target)
+		cmd := exec.Command("go", args...)
 		cmd.Dir = RepoDir
 		cmd.Env = append(os.Environ(), "GOFLAGS=-mod=mod", "GOPROXY=off", "GOSUMDB=off", "GOTOOLCHAIN=local", "VERIF_REPLAY_LIST="+listPath)
 		b, err := cmd.CombinedOutput()
 		got := 0
+		raceSeen := false
 		for _, line := range strings.Split(string(b), "\n") {
 			line = strings.TrimSpace(line)
+			if strings.Contains(line, "WARNING: DATA RACE") {
+				raceSeen = true
+			}
 			if strings.HasPrefix(line, "REPLAY-RESULT ") {
 				rest := strings.TrimPrefix(line, "REPLAY-RESULT ")
 				i := strings.IndexByte(rest, ' ')
@@ -265,6 +275,12 @@ func runNative(ld *vm.Loaded, m *vm.VM, chk *Check, workDir string, byPkg map[st
 				}
 				var o nativeOutcome
 				if json.Unmarshal([]byte(rest[i+1:]), &o) == nil {
+					if raceSeen {
+						// the race detector reported during this replay
+						o.Failed = append(o.Failed, "C11:concurrent-runs-share-no-written-state")
+						o.Notes = append(o.Notes, "DATA RACE reported by the race detector")
+						raceSeen = false
+					}
 					out[rest[:i]] = o
 					got++
 				}
@@ -423,8 +439,20 @@ func Run(id, tier string, seed int, workers int) int {
 					}
 					spec.MaxTime = left
 				}
+				if spec.MaxTime == 0 {
+					spec.MaxTime = 90 * time.Second
+					if tier == "thorough" {
+						spec.MaxTime = 15 * time.Minute
+					}
+				}
 				m.SampleModels = nValidate
+				if os.Getenv("VERIF_SLOW") != "" {
+					fmt.Printf("START %s\n", c.ID)
+				}
 				res := m.RunCase(spec)
+				if os.Getenv("VERIF_SLOW") != "" {
+					fmt.Printf("END %s paths=%d wall=%s\n", c.ID, res.Paths, res.Wall)
+				}
 				results[i] = caseOutcome{c, res}
 				// translator validation runs (concrete mode) on sampled path models
 				for _, sm := range res.Samples {
